@@ -160,6 +160,8 @@ class Stream:
         return rs, self.base[1]
 
     def state_after(self, kind, val, pos):
+        if kind == 1 and self.base is None:
+            return None
         rs, p0 = self._rs(kind, val)
         if pos < p0:
             return None
@@ -168,6 +170,8 @@ class Stream:
         return rs.get_state()
 
     def subseed(self, kind, val, k):
+        if kind == 1 and self.base is None:
+            return None
         rs, p0 = self._rs(kind, val)
         if k < p0:
             return None
@@ -345,6 +349,7 @@ def run_plan_rm(ctx, gs, drv, plan):
     cache = {}
     stream = Stream()
     last_resets = 0
+    pending = False
     for t, (row, ob) in enumerate(zip(rows, obs)):
         (m_resets, m_pos, _ent, skind, sval, ekind, evl, m_n, m_midx, md_ek, md_ev, md_mi, md_n,
          out_kind, o_ek, o_ev, o_mi, o_n, has_noise, n_ek, n_ev, n_pos, n_shape, out_is_state) = [int(x) for x in row[:24]]
@@ -358,8 +363,11 @@ def run_plan_rm(ctx, gs, drv, plan):
         elif tbl.rows[m_midx] != ob["model"]:
             what = "generator's model copy: model row %r, implementation %r" % (tbl.rows[m_midx], ob["model"])
         else:
-            if m_resets != last_resets and ekind == 1:
-                stream.base = (ob["master"], m_pos)      # seed None: OS entropy, take the state as given
+            if (m_resets != last_resets or pending) and ekind == 1:
+                # seed None: OS entropy, take the state as given (after the whole SRF call if observed mid-call)
+                pending = ob["mid"]
+                if not pending:
+                    stream.base = (ob["master"], m_pos)
             exp_state = stream.state_after(ekind, evl, m_pos)
             if not ob["mid"] and (exp_state is None or not same_state(exp_state, ob["master"])):
                 what = "RNG stream position: master RNG is not at sub-stream %d after seeding with %s" % (m_pos, (ekind, evl))
@@ -586,6 +594,7 @@ def run_plan_fo(ctx, gs, drv, plan):
     cache = {}
     stream = Stream()
     last_resets = 0
+    pending = False
 
     def fail(t, what, is_prop):
         step = "init" if t == 0 else "generator-level op %d %r" % (t - 1, gops[t - 1])
@@ -619,8 +628,10 @@ def run_plan_fo(ctx, gs, drv, plan):
         elif not (g_ok and sf_ok and z_n == int(np.prod(m_mn)) and (z_ek, z_ev) == (ekind, evl)):
             what = "model state not fresh (grid/spectrum/amplitudes not derived from the present settings)"
         else:
-            if m_resets != last_resets and ekind == 1:
-                stream.base = (ob["master"], m_pos)
+            if (m_resets != last_resets or pending) and ekind == 1:
+                pending = ob["mid"]
+                if not pending:
+                    stream.base = (ob["master"], m_pos)
             exp_state = stream.state_after(ekind, evl, m_pos)
             if not ob["mid"] and (exp_state is None or not same_state(exp_state, ob["master"])):
                 what = "RNG stream position: master RNG is not at sub-stream %d after seeding with %s" % (m_pos, (ekind, evl))
